@@ -340,7 +340,7 @@ func checkObj(t *testing.T, c ObjCase) (v harness.Verdict) {
 
 // Object is the SCT / STH level of C05.
 var Object = harness.Define(harness.Opts{
-	Name: "object",
-	Rule: "SCT over an X.509 or precert entry, or STH, signed over the harness's RFC 6962 encoding with a pool key and hash 1..6, presented with 0-2 mutations: every signed field (version, timestamp, extensions, entry type, entry bytes, issuer key hash / tree size, root hash), every unsigned field (log id, leaf timestamp / extensions, index, inactive entry branch), key swap, algorithm codes, signature value; verifier through NewSignatureVerifier with the opt-in drawn (policy checked), a struct literal where the policy refuses. Expected: accept iff the reference accepts the signature over the canonical input of the presented object. Non-trivial: at least one mutation or hash != SHA-256",
+	Name:  "object",
+	Rule:  "SCT over an X.509 or precert entry, or STH, signed over the harness's RFC 6962 encoding with a pool key and hash 1..6, presented with 0-2 mutations: every signed field (version, timestamp, extensions, entry type, entry bytes, issuer key hash / tree size, root hash), every unsigned field (log id, leaf timestamp / extensions, index, inactive entry branch), key swap, algorithm codes, signature value; verifier through NewSignatureVerifier with the opt-in drawn (policy checked), a struct literal where the policy refuses. Expected: accept iff the reference accepts the signature over the canonical input of the presented object. Non-trivial: at least one mutation or hash != SHA-256",
 	Quick: 6000, Thorough: 25000,
 }, genObj, checkObj)
